@@ -633,3 +633,44 @@ add('C05', 'year-position-explicit-sum', YEARF, "            start_index += star
 add('C16', 'honeyword-seed-advance-deleted', HSF_, "            self.random_seed += 1\n", "", 'fire', 'C16.R3')
 add('C16', 'honeyword-seed-advance-by-two', HSF_, "            self.random_seed += 1\n", "            self.random_seed += 2\n", 'silent')
 add('C08', 'queue-position-saved-in-the-other-modes', CSF, '        if self.mode == "priority_queue":', '        if self.mode != "priority_queue":', 'fire', 'C08.R4')
+
+# ---- round 13 -------------------------------------------------------------------------------------------------------------------
+OPTF13 = 'lib_guesser/omen/optimizer.py'
+MEMO13 = "        self.tmto_lookup = []\n        for i in range(self.max_length + 1):\n            self.tmto_lookup.append({})\n"
+add('C10', 'memo-one-dict-for-every-length', OPTF13, MEMO13, "        self.tmto_lookup = [{}] * (self.max_length + 1)\n", 'fire', 'C10.R26')
+add('C10', 'memo-tables-by-comprehension', OPTF13, MEMO13, "        self.tmto_lookup = [{} for _ in range(self.max_length + 1)]\n", 'silent')
+GSF13 = 'lib_guesser/omen/guess_structure.py'
+add('C11', 'transition-counter-hoisted-out-of-the-level-loop', GSF13,
+    [("        cur_level = target_level\n", "        cur_level = target_level\n        cur_index = 0\n"),
+     ("            top_index = len(cp_index)\n            cur_index = 0\n", "            top_index = len(cp_index)\n")], None, 'fire', 'C11.R24')
+add('C11', 'transition-counter-also-initialised-outside', GSF13,
+    "        cur_level = target_level\n", "        cur_level = target_level\n        cur_index = 0\n", 'silent')
+MCF13 = 'lib_guesser/omen/markov_cracker.py'
+add('C04', 'first-level-scan-starts-at-1', MCF13, "        for level in range(0,self.max_level):", "        for level in range(1, self.max_level + 1):", 'fire', 'C04.R25')
+add('C04', 'first-level-scan-one-argument-range', MCF13, "        for level in range(0,self.max_level):", "        for level in range(self.max_level):", 'silent')
+TFI13 = 'lib_trainer/trainer_file_input.py'
+add('C06', 'counted-then-skipped', TFI13,
+    [("                # Checks to see if the password is valid\n                if not check_valid(clean_password):\n                    continue\n\n                ## This is a valid password\n                self.num_passwords += n\n", ""),
+     ("                ## Check the encoding of the file\n", "                if not check_valid(clean_password):\n                    continue\n                self.num_passwords += n\n\n                ## Check the encoding of the file\n")],
+    None, 'fire', 'C06.R23')
+KBF13 = 'lib_trainer/detection_rules/keyboard_walk.py'
+add('C05', 'row-up-takes-the-column-rule-of-row-down', KBF13,
+    "            if (cur_data['pos'] == past_data['pos']) or (cur_data['pos'] == past_data['pos'] + 1):",
+    "            if (cur_data['pos'] == past_data['pos']) or (cur_data['pos'] == past_data['pos'] - 1):", 'fire', 'C05.R23')
+add('C05', 'row-up-test-respelled', KBF13, "        elif cur_data['row'] == past_data['row'] - 1:", "        elif past_data['row'] - cur_data['row'] == 1:", 'silent')
+add('C05', 'optional-position-table-used-unguarded', KBF13,
+    [("    pos_list = {}\n\n    for board in keyboards:", "    if char.isspace():\n        return None\n\n    pos_list = {}\n\n    for board in keyboards:"),
+     ("        past_pos_list = pos_list.copy()\n", "        past_pos_list = pos_list.copy() if pos_list else {}\n")], None, 'fire', 'C05.R24')
+PQF13 = 'lib_guesser/priority_queue.py'
+add('C02', 'children-of-the-previous-item-pushed-lazily', PQF13,
+    "        for child in self.pcfg.find_children(queue_item.pt_item):", "        for child in self.pcfg.find_children(self.last_item):", 'fire', 'C02.R5')
+add('C02', 'popped-item-in-a-local', PQF13,
+    "        for child in self.pcfg.find_children(queue_item.pt_item):", "        popped = queue_item.pt_item\n        for child in self.pcfg.find_children(popped):", 'silent')
+add('C16', 'all-lower-stored-under-a-key-nobody-reads', 'pcfg_guesser.py',
+    [("        dest='skip_case',\n", "        dest='all_lower',\n"), ("    program_info['skip_case'] = args.skip_case", "    program_info['all_lower'] = args.all_lower")],
+    None, 'fire', 'C16.R19')
+add('C14', 'save-flags-read-under-a-key-the-loader-never-writes', CSF,
+    "        self.save_config.set('guessing_info', 'mode', self.mode)",
+    "        self.save_config.set('rule_info', 'skip_case', str(self.pcfg.ruleset_info.get('skip_case', False)))\n        self.save_config.set('guessing_info', 'mode', self.mode)", 'fire', 'C14.R24')
+add('C08', 'parent-priced-without-the-base-probability', PGF, "            new_parent_prob = self._find_prob(new_parent, pt_item['base_prob'])",
+    "            new_parent_prob = self._find_prob(new_parent, 1.0) if False else self._find_prob(new_parent)", 'fire')
